@@ -22,7 +22,8 @@ EXPLANATION = (
     '/ D class / D under the matching emptiness tests, bound to the request\'s account and class; challenge '
     'and kill lines are bound to their text parameter; (FMT.2) the class rules cut the account stamp at its '
     'first colon by an exact prefix copy and choose rule->class or else the rule name; (GRD.1) after an account is stamped, every path '
-    'on which +x or +! is requested sends user mode +x.  String contents are not decided.')
+    'on which +x or +! is requested sends user mode +x.  String contents are not decided.'
+    ' Rounds 8-9: (TAB.5/MPT.4) shared: name-order comparator, protocol re-assigned on every pass; (TAB.1) slices follow choices and byte-tested words.')
 ASSUMPTIONS = ['clang 14 CFG', 'strncmp(s, lit, n)==0 with n == len(lit) fixes the first n bytes of s']
 
 LOGIN_TYPES = {'LOGIN', 'LOGIN_IPR', 'COMBINED'}
